@@ -2,6 +2,7 @@ package checks
 
 import (
 	"fmt"
+	"regexp"
 	"strings"
 	"testing"
 
@@ -29,6 +30,72 @@ func sameStrings(a, b []string) string {
 		if strings.TrimRight(a[i], " ") != strings.TrimRight(b[i], " ") {
 			return fmt.Sprintf("line %d: %q vs %q", i, a[i], b[i])
 		}
+	}
+	return ""
+}
+
+// listingMatchesCode compares listing texts with the current code without
+// depending on the exact layout of a line: per block one header line naming
+// the position number and the start address, then one line per instruction
+// containing its text and its bytes in hex, blocks separated by one blank line
+// and one blank line at the end.
+func listingMatchesCode(texts []string, code *deps.Code) string {
+	i := 0
+	next := func() (string, bool) {
+		if i >= len(texts) {
+			return "", false
+		}
+		i++
+		return texts[i-1], true
+	}
+	for pos, b := range code.Blocks() {
+		if pos != 0 {
+			if l, ok := next(); !ok || strings.TrimSpace(l) != "" {
+				return fmt.Sprintf("line %d: expected a blank separator before block %d, got %q", i-1, pos+1, l)
+			}
+		}
+		h, ok := next()
+		if !ok {
+			return fmt.Sprintf("listing ends before the header of block %d", pos+1)
+		}
+		lower := strings.ToLower(h)
+		addrHex := fmt.Sprintf("%x", uint64(b.Begin()))
+		hasAddr := strings.Contains(lower, addrHex)
+		// the position number must appear as a number of its own, outside the address
+		withoutAddr := strings.Replace(strings.Replace(lower, "0x"+addrHex, " ", 1), addrHex, " ", 1)
+		hasPos := false
+		for _, tok := range regexp.MustCompile(`[0-9]+`).FindAllString(withoutAddr, -1) {
+			if tok == fmt.Sprintf("%d", pos+1) {
+				hasPos = true
+			}
+		}
+		if !hasPos || !hasAddr {
+			return fmt.Sprintf("line %d: header %q does not name position %d and start address 0x%x", i-1, h, pos+1, uint64(b.Begin()))
+		}
+		for k, in := range b.Instructions() {
+			l, ok := next()
+			if !ok {
+				return fmt.Sprintf("listing ends inside block %d", pos+1)
+			}
+			if !strings.Contains(l, in.String()) {
+				return fmt.Sprintf("line %d: %q does not show instruction %d of block %d (%q)", i-1, l, k, pos+1, in.String())
+			}
+			rest := strings.ToLower(l[strings.Index(l, in.String())+len(in.String()):])
+			for _, by := range in.Bytes() {
+				hx := fmt.Sprintf("%02x", by)
+				idx := strings.Index(rest, hx)
+				if idx < 0 {
+					return fmt.Sprintf("line %d: %q does not show the bytes %x", i-1, l, in.Bytes())
+				}
+				rest = rest[idx+2:]
+			}
+		}
+	}
+	if l, ok := next(); !ok || strings.TrimSpace(l) != "" {
+		return fmt.Sprintf("expected a final blank line, got %q (present %v)", l, ok)
+	}
+	if i != len(texts) {
+		return fmt.Sprintf("listing has %d lines, the code needs %d", len(texts), i)
 	}
 	return ""
 }
@@ -71,8 +138,9 @@ func TestC23(t *testing.T) {
 		"of different sizes (variable-length instructions, unique texts): actions are `move a b` for instruction->instruction "+
 		"in the same block (aimed at the move bounds or not), instruction->instruction of another block, header->header (block "+
 		"move), header<->instruction, empty lines, out-of-range lines, and `bounds n`. After every action the listing obtained "+
-		"through `alllines` (marks stripped) must equal the harness' own rendering of code.Blocks() (header `Block <pos+1>: "+
-		"0x<begin>`, instruction text padded to 24 + ` | ` + hex bytes, blank separators) and the listing of a brand-new mode "+
+		"through `alllines` (marks stripped) must match code.Blocks() (one header per block naming position+1 and the start "+
+		"address, one line per instruction with its text and bytes, single blank separators, final blank line - the exact "+
+		"column layout is not assumed) and must equal the listing of a brand-new mode "+
 		"over the same code; after a rejected move it must equal the previous listing. non-trivial = history with an "+
 		"accepted block move between blocks of different length followed by an accepted instruction move; distinct by history")
 	defer col.Flush()
@@ -96,10 +164,9 @@ func TestC23(t *testing.T) {
 			if msg != "" {
 				t.Fatalf("%s: %s (history %v)\n  program %s", what, msg, hist, p)
 			}
-			want := renderCode(code)
-			if d := sameStrings(listingTexts(ls), want); d != "" {
-				t.Fatalf("%s: listing differs from a fresh rendering of the current code: %s\n  history %v\n  listing %q\n  fresh   %q\n  program %s",
-					what, d, hist, listingTexts(ls), want, p)
+			if d := listingMatchesCode(listingTexts(ls), code); d != "" {
+				t.Fatalf("%s: listing differs from a fresh rendering of the current code: %s\n  history %v\n  listing %q\n  program %s",
+					what, d, hist, listingTexts(ls), p)
 			}
 			for i, l := range ls {
 				if l.num != i {
